@@ -5,10 +5,30 @@ package main
 // time). now / since / until read the clock and are listed as not covered.
 
 import (
+	"sync"
 	"time"
 
 	"github.com/d5/tengo/v2"
 )
+
+// loadLoc is time.LoadLocation with a cache (the reference side only; the
+// zone files do not change during a run).
+var locCache sync.Map
+
+type locRes struct {
+	l   *time.Location
+	err error
+}
+
+func loadLoc(name string) (*time.Location, error) {
+	if v, ok := locCache.Load(name); ok {
+		r := v.(locRes)
+		return r.l, r.err
+	}
+	l, err := time.LoadLocation(name)
+	locCache.Store(name, locRes{l, err})
+	return l, err
+}
 
 func timesSpecs() []*Spec {
 	var out []*Spec
@@ -85,7 +105,7 @@ func timesSpecs() []*Spec {
 		func(a []interface{}) R {
 			loc := time.Local // "The Local time zone will be used if executed without specifying a location"
 			if len(a) == 8 {
-				l, err := time.LoadLocation(aS(a, 7))
+				l, err := loadLoc(aS(a, 7))
 				if err != nil {
 					return rErr()
 				}
@@ -140,7 +160,7 @@ func timesSpecs() []*Spec {
 	t1("is_zero", "time.Time.IsZero", func(t time.Time) R { return rB(t.IsZero()) })
 	add("in_location", "time.LoadLocation + time.Time.In", []P{pT("t"), pSa("l", "LOC")},
 		func(a []interface{}) R {
-			l, err := time.LoadLocation(aS(a, 1))
+			l, err := loadLoc(aS(a, 1))
 			if err != nil {
 				return rErr()
 			}
